@@ -14,6 +14,12 @@ CLAIMED = {
    note="Equality with |closure| rests on C01 and is validated per input (n<=6 quick, <=8 thorough). No axioms.",
    technique="Coq proof of dimension arithmetic + verified closure oracle as judge",
    design="6 C09"),
+ "C02": dict(
+   text="Translation-validation style: the reduction pipeline is not ported; its observable output (legs and dependents per canonical graph) is checked on every run by the Coq function reduction_ok, proved sound for every n (C02_validator_sound: true implies closure equality w.r.t. the inductive Cl, dependents in the closure, accounting, one graph per component, exact star shape). Closure laws justifying the pipeline's moves (contraction, added product, transport) proved for all n. Inputs: exhaustive small, structured, uniform collections n<=8 with closure; 9..16 qubits with shape/accounting and the F2-span necessary condition.",
+   note="gen_components is used as the component count (its correctness theorem is part of C14). MorphFactory itself is validated per input, not verified. No axioms.",
+   technique="Coq-verified validator of the reduction's output (soundness theorem) + closure-law theorems; per-input validation",
+   category="proof",
+   design="6 C02"),
  "C04": dict(
    text="Proof: Coq theorems C04_product/commute/adjoint/conj/reject hold for every n and every pair of strings, about a bit-level model of PauliString.sign/commutes_with/multiply/adjoint_map/complex_conj and the Kronecker-product matrices over Z[i]. The model is tied to /repo on every run by a correspondence run: all 16^n pairs n<=3 (n<=4 thorough) plus random pairs up to n=64 and all length mismatches, implementation vs extracted model, and numpy matrices multiplied out for n<=3.",
    note="Trusted: Coq kernel, extraction (ExtrOcamlBasic), OCaml driver, Python harness; numpy kron/@ taken as the matrices. No axioms (Print Assumptions: closed).",
